@@ -301,6 +301,9 @@ func main() {
 		for _, h := range hs {
 			if h.Func == *dump {
 				dirs := map[string]bool{h.Dir: true}
+				if w := h.Opts["with"]; w != "" {
+					dirs[w] = true
+				}
 				eng, err := symgo.Load(repoDir, []string{"./" + h.PkgDir}, engineOverlay(dirs, pkgNames))
 				if err != nil {
 					fatal("%v", err)
@@ -363,6 +366,10 @@ func runProperty(prop, tier, only string, par int, hs []harness, pkgNames map[st
 		}
 		mine = append(mine, h)
 		dirs[h.Dir] = true
+		// "with=<dir>": the harness uses helpers from another harness directory
+		if w := h.Opts["with"]; w != "" {
+			dirs[w] = true
+		}
 	}
 	if len(mine) == 0 {
 		fatal("no harness for property %s", prop)
